@@ -231,7 +231,17 @@ def run(prop, cond, args, model=True):
         # replay on the real library decides whether it is genuine); ModelGap is a BaseException
         # and propagates (inconclusive)
         return False
-    return deep_eq(got, exp)
+    ok = deep_eq(got, exp)
+    if not ok and os.environ.get('VF_DEBUG'):
+        try:
+            from crosshair.core import deep_realize
+            from crosshair.tracers import NoTracing
+            g, x = deep_realize(got), deep_realize(exp)
+            with NoTracing():
+                sys.stderr.write('VF_DEBUG got=%r\nVF_DEBUG exp=%r\n' % (g, x))
+        except Exception as ex:  # noqa: BLE001
+            sys.stderr.write('VF_DEBUG failed: %r\n' % (ex,))
+    return ok
 
 
 def run_pair(prop, cond, args, model):
